@@ -5,7 +5,9 @@ package rdb
 //vf:job C01 quick VF_C01_Load sk=0..27 attr=0..3
 //vf:job C01 quick VF_C01_Meta sk=0..7
 //vf:job C01 quick VF_C01_FooterRejects pos=0..7
+//vf:job C01 quick VF_C01_FooterRejects pos=3 ver=5..8
 //vf:job C11 quick VF_C01_FooterRejects pos=0..7
+//vf:job C11 quick VF_C01_FooterRejects pos=0,7 ver=5..8
 //vf:job C11 quick VF_C01_ShortReads mode=0..2
 //vf:job C01 quick VF_C01_ShortReads mode=0..2
 //vf:job C01 quick VF_C01_HeaderVersion
@@ -353,7 +355,7 @@ func VF_C01_Meta() {
 func VF_C01_FooterRejects() {
 	pos := vfParam("pos", 0)
 	w := &vfW{}
-	w.header('9')
+	w.header(byte('0' + vfParam("ver", 9))) // every format version that carries a checksum: 5..9
 	w.selectDB(0, 0)
 	w.key(RdbTypeString, vfBytes("key", 1), nil, func() { w.str(vfBytes("v", 1), 0) })
 	w.eof()
